@@ -8,6 +8,7 @@ import (
 	"fmt"
 	"go/token"
 	"go/types"
+	"os"
 	"slices"
 	"strings"
 	"sync"
@@ -119,8 +120,10 @@ type interpreter struct {
 	freeSched    bool
 	everExplored bool
 	atomic       int
+	tracing      bool
 	preempts     int
 	idleWait     []*thread
+	stalled      []*thread
 
 	steps      int64
 	maxSteps   int64
@@ -548,6 +551,26 @@ func callSSA(i *interpreter, caller *frame, callpos token.Pos, fn *ssa.Function,
 // execBody interprets fr.fn's SSA body.
 func execBody(fr *frame, args []value, env []value) value {
 	i, fn := fr.i, fr.fn
+	if i.tracing && i.lenient == 0 {
+		pp := fnPkgPath(fn)
+		if fn.Parent() != nil {
+			pp = fnPkgPath(fn.Parent())
+		}
+		if strings.HasPrefix(pp, "berty.tech/go-orbit-db/stores") || strings.HasPrefix(pp, "berty.tech/go-orbit-db/base") {
+			depth := 0
+			for f := fr.caller; f != nil; f = f.caller {
+				depth++
+			}
+			name := "?"
+			if i.cur != nil {
+				name = i.cur.name
+				if k := strings.Index(name, ":"); k > 0 {
+					name = name[:k]
+				}
+			}
+			fmt.Fprintf(os.Stderr, "%-4s %s%s\n", name, strings.Repeat(" ", depth), fn.String())
+		}
+	}
 	if i.encoded != nil && fn.Parent() == nil && i.lenient == 0 {
 		i.encoded[fn.String()] = true
 	}
